@@ -6,6 +6,8 @@ pub mod heap;
 mod primitives;
 pub mod program;
 mod ringbuffer;
+#[cfg(mimium_verif)]
+pub mod verif;
 pub use bytecode::*;
 use ringbuffer::Ringbuffer;
 
@@ -1344,6 +1346,8 @@ impl Machine {
                     buffer.copy_from_slice(&src_words);
                 }
                 Instruction::GetState(dst, size) => {
+                    #[cfg(mimium_verif)]
+                    self.verif_record_state_access(b'G', size as usize);
                     //force borrow because state storage and stack never collisions
                     let v: &[RawVal] = unsafe {
                         std::mem::transmute(self.get_current_state().get_state(size as _))
@@ -1351,6 +1355,8 @@ impl Machine {
                     self.set_stack_range(dst as i64, v);
                 }
                 Instruction::SetState(src, size) => {
+                    #[cfg(mimium_verif)]
+                    self.verif_record_state_access(b'S', size as usize);
                     let vs = {
                         let (_range, v) = self.get_stack_range(src as i64, size as _);
                         unsafe { std::mem::transmute::<&[RawVal], &[RawVal]>(v) }
@@ -1372,12 +1378,16 @@ impl Machine {
                             .delay_sizes
                             .get_unchecked(*delaysize_i)
                     };
+                    #[cfg(mimium_verif)]
+                    self.verif_record_state_access(b'D', size_in_samples as usize + 2);
                     let mut ringbuf = self.get_current_state().get_as_ringbuffer(size_in_samples);
 
                     let res = ringbuf.process(i, t);
                     self.set_stack(dst as i64, res);
                 }
                 Instruction::Mem(dst, src) => {
+                    #[cfg(mimium_verif)]
+                    self.verif_record_state_access(b'M', 1);
                     let s = self.get_stack(src as i64);
                     let ptr = self.get_current_state().get_state_mut(1);
                     let v = Self::to_value(ptr[0]);
@@ -1455,6 +1465,24 @@ impl Machine {
                 panic!("external function {name} cannot be found");
             }
         });
+    }
+    /// Verification hook: words and cursor of the global (dsp) state storage.
+    #[cfg(mimium_verif)]
+    pub fn verif_global_state(&self) -> (&[u64], usize) {
+        (&self.global_states.rawdata, self.global_states.pos)
+    }
+    /// Verification hook: record one state access (kind, cursor, size) and check that it lies inside the storage.
+    #[cfg(mimium_verif)]
+    fn verif_record_state_access(&mut self, kind: u8, size: usize) {
+        let global = self.states_stack.0.is_empty();
+        let st = self.get_current_state();
+        let (pos, len) = (st.pos, st.rawdata.len());
+        verif::record(verif::StateAccess { global, pos, size, kind, storage_len: len });
+        assert!(
+            pos.checked_add(size).is_some_and(|e| e <= len),
+            "mimium_verif: state access out of bounds: kind={} pos={pos} size={size} storage_len={len} global={global}",
+            kind as char
+        );
     }
     pub fn execute_idx(&mut self, idx: usize) -> ReturnCode {
         let (_name, func) = &self.prog.global_fn_table[idx];
